@@ -134,8 +134,8 @@ CHECKS = {
         "re-reads from the source on every run (np, r2, r3, rN1, p and q from u, NAF of 6u+2, twistB, the six Frobenius "
         "constants) satisfy their defining equations (vm_compute). The amd64 routines of the base field are translated from "
         "gfp.s / gfp.h / mul.h / mul_bmi2.h on every run (T1, Gen/GfpAsm.v) into a machine model (Models/Asm.v): gfpAdd, gfpSub, "
-        "gfpNeg are proved for ALL limbs ((a+b) mod p, (a-b) mod p, -a mod p for operands below p), the 4x4-limb product of the "
-        "MULQ path of gfpMul is proved for all limbs (C10_asm_gfpMul_product_partial), N' p = -1 mod 2^256 and the alias "
+        "gfpNeg are proved for ALL limbs ((a+b) mod p, (a-b) mod p, -a mod p for operands below p), the 4x4-limb product of BOTH "
+        "paths of gfpMul is proved for all limbs (C10_asm_gfpMul_product_partial, C10_asm_gfpMulx_product_partial), N' p = -1 mod 2^256 and the alias "
         "discipline of every routine are checked. Tie: translate/run.py regenerates Gen/BnConsts.v and Gen/GfpAsm.v from "
         "/repo; the extracted machine model runs both gfpMul paths and the three other routines on every field case and must "
         "return exactly the limbs the real assembly returned; the value-level model (all group operations and the whole Miller loop + final exponentiation ported to Gallina) "
@@ -143,8 +143,8 @@ CHECKS = {
         "scalars {0,1,q-1,q,q+1,2^256-1}, P/-P, P/P, identity, pairings with G2 operands in four internal representations, "
         "PairingCheck with identity members at every position; judges: math/big, go-ethereum's big-integer bn256, EVM precompiles.",
    note=TB + "partial by design: associativity of the group law and bilinearity/non-degeneracy of the optimal ate pairing are "
-        "not re-proved (imported mathematics); the Montgomery reduction of gfpMul (both paths) and the product of the MULX path "
-        "are translated, executed and compared limb for limb on directed operands, not proved (lia did not close the truncated "
+        "not re-proved (imported mathematics); the Montgomery reduction of gfpMul (both paths) "
+        "is translated, executed and compared limb for limb on directed operands, not proved (lia did not close the truncated "
         "product within the time available).",
    technique="translators for constants and for the amd64 field routines + Coq proof (symbolic execution of the translated "
              "assembly, ring/field identities for tower and curve formulas) + differential "
